@@ -43,6 +43,13 @@ impl Env {
         }
     }
 
+    /// Remove everything below the scratch tree area (also directories above the project root).
+    pub fn reset_tree(&self) {
+        let _ = std::env::set_current_dir(&self.scratch);
+        let _ = std::fs::remove_dir_all(self.scratch.join("t"));
+        std::fs::create_dir_all(&self.root).unwrap();
+    }
+
     pub fn clear_run_vlog(&self) {
         let _ = std::fs::remove_dir_all(&self.vlog);
         std::fs::create_dir_all(&self.vlog).unwrap();
